@@ -39,7 +39,7 @@ WANT = {"C06"}
 
 def cases(tier, rnd):
     if tier == "quick":
-        return sh.hist_descs(tier, rnd, 900, 300)
+        return sh.hist_descs(tier, rnd, 1800, 600)
     return sh.hist_descs(tier, rnd, 3600, 1200, long_every=6)
 
 
